@@ -1464,7 +1464,8 @@ class C07(Check):
                   "(one OS thread at a time, virtual blocking, Lock/Event/Queue/pinger/select replaced by instrumented versions; the pipe "
                   "pinger's byte-counter semantics is checked separately against the real PipePinger); real OS scheduling, real time-outs, epoll "
                   "and free-threaded builds are not exercised.  Not modelled (C06's territory): timers and fd waits of ordinary tasks, "
-                  "priorities < 1, quit, CallBlocking, callbacks that hand over further calls; evidence.sites.not_modelled lists every statement "
+                  "priorities < 1 (exercised on the real code with pinned draws and judged by the oracle: queued at most once, no more slices "
+                  "than wake-ups and own re-queues), quit, CallBlocking, callbacks that hand over further calls; evidence.sites.not_modelled lists every statement "
                   "of the listed functions that is not modelled.  Known defect outside the model (finding C07-1, "
                   "reproduced on the real classes by the case kind `hubrace`, Lean witness schedule_hub_race_defect): schedule(t) for a task t "
                   "that is at the same time parked in the *threaded* hub races with the hub thread's own fast_schedule(t) and t is queued twice; "
@@ -1477,7 +1478,10 @@ class C07(Check):
             "(f: Scheduler.callLater / core.callLater / core.call_later / core.raiseLater, positional / keyword / no arguments = identical queue "
             "entries; ONE callable object per submitter); per schedule: schedule(t) / schedule(task=t, first=False) / t.start(sched) / "
             "t.start(scheduler=sched, fast=False); per case: falsy callables (falsy_cb), falsy task objects (falsy_task), the thread's own "
-            "Synchronizer instead of scheduler.synchronized() (syncform), exceptions raised by hand-overs from cooperative code (sx); families: "
+            "Synchronizer instead of scheduler.synchronized() (syncform), exceptions raised by hand-overs from cooperative code (sx) and the "
+            "entry point each of them uses (sf: the same six forms — a cooperative task mixes Scheduler.callLater with pox.core's callLater / "
+            "call_later / raiseLater in one slice), task priorities < 1 with the draws of the priority rotation pinned (prio, draws: oracle "
+            "only, the rotation is not in the model); families: "
             "batches with a raising function at every position x every exception class, bursts around the pinger's read size, 'late thread' "
             "sweeps (every single pre-emption on top of two priority orders); lock case = per-task programs over {acquire(l, blocking), "
             "release(l), yield} on 1-2 locks, 2-4 tasks, acquire's calling convention (aform: bool/int, positional/keyword, default); pinger "
